@@ -18,7 +18,7 @@ import cexpr
 import creader
 import c01_odegen as O
 
-MASS = {"H": 1, "D": 2, "He": 4, "C": 12, "N": 14, "O": 16}
+MASS = {"H": 1, "D": 2, "He": 4, "C": 12, "N": 14, "O": 16, "S": 32, "Si": 28}
 
 
 def species_mass(name):
